@@ -39,7 +39,10 @@ def rand_name(rng, maxlabels=4):
     if rng.random() < 0.03:     # a maximal name: 255 octets
         labs = [bytes(rng.choice(LET) for _ in range(63)) for _ in range(3)] + [bytes(rng.choice(LET) for _ in range(61))]
         return T.name_wire(labs)
-    return T.name_wire([rand_label(rng) for _ in range(rng.randint(1, maxlabels))])
+    while True:
+        w = T.name_wire([rand_label(rng) for _ in range(rng.randint(1, maxlabels))])
+        if len(w) <= 255:       # a name is at most 255 octets on the wire; longer ones are not names (the runners reject them)
+            return w
 
 
 def rand_key(rng):
